@@ -9,9 +9,10 @@ import time
 VERIF = os.path.dirname(os.path.dirname(os.path.abspath(__file__)))
 RT = os.path.join(VERIF, 'engine/rt')
 
-BASE_FLAGS = ['--unwinding-assertions', '--pointer-overflow-check', '--undefined-shift-check', '--signed-overflow-check',
-              '--drop-unused-functions', '--no-malloc-may-fail', '--no-standard-checks', '--bounds-check', '--pointer-check',
-              '--div-by-zero-check', '--no-built-in-assertions']
+# --no-standard-checks must come FIRST: it resets every check option given before it
+BASE_FLAGS = ['--no-standard-checks', '--unwinding-assertions', '--pointer-overflow-check', '--undefined-shift-check', '--signed-overflow-check',
+              '--drop-unused-functions', '--no-malloc-may-fail', '--bounds-check', '--pointer-check',
+              '--div-by-zero-check', '--no-built-in-assertions', '--object-bits', '12']
 
 
 def _limit(mem_gb):
@@ -118,3 +119,18 @@ def trace_inputs(trace):
         return []
     n = max(vals) + 1
     return [vals.get(i, 0) for i in range(n)]
+
+
+def loops(c_file, entry):
+    """[(loop id, function)] from cbmc --show-loops"""
+    cmd = ['cbmc', c_file, os.path.join(RT, 'verif_rt.c'), '-I', RT, '--function', entry, '--show-loops', '--json-ui', '--drop-unused-functions']
+    p = subprocess.run(cmd, capture_output=True, text=True, timeout=300)
+    out = []
+    try:
+        data = json.loads(p.stdout)
+    except Exception:
+        return out
+    for item in data:
+        for l in item.get('loops', []) if isinstance(item, dict) else []:
+            out.append((l.get('name'), (l.get('sourceLocation') or {}).get('function', '')))
+    return out
